@@ -11,7 +11,7 @@ from ..run import hyp_search, mix
 
 RULE = ('element trees (depth<=3) built through the API from oracle-valid child words: attributes supplied by '
         'constructor keyword, by later dot assignment, overwritten and removed (=None) after construction; values '
-        'changed after construction; mixed xsd_check per node, unchecked nodes (of any type, also types without a content model) holding arbitrary extra children; also trees obtained from parse_musicxml.  Oracle: '
+        'changed after construction; mixed xsd_check per node, unchecked nodes (of any type, also types without a content model) holding arbitrary extra children, and trees one of whose child objects has also been added to a second parent; also trees obtained from parse_musicxml.  Oracle: '
         'deepcopy(e).to_string()==e.to_string() (or both raise the same type with the same message); a recursive '
         'public-API dump (class, attributes, value, xsd_check, ordered children) of e is identical before and after '
         'copying and equals the copy\'s; then a drawn mutation (attribute set / removed, value set, child added / '
@@ -90,6 +90,9 @@ def draw_plan(data, el, depth):
                 plan['order'] = list(data.draw(st.permutations(list(range(n)))))
         elif n >= 1 and z in (1, 2, 3):
             plan['readd'] = [data.draw(st.integers(0, n - 1)) for _ in range(data.draw(st.integers(1, 2)))]
+    if plan['kids'] and data.draw(st.integers(0, 5)) == 0:
+        # one child OBJECT is also given to a second parent (nothing forbids it); the original keeps serialising it
+        plan['share'] = data.draw(st.integers(0, len(plan['kids']) - 1))
     if not plan['checked'] and data.draw(st.integers(0, 2)) == 0:
         # an unchecked element takes any child, whether or not its type has a content model at all
         for i in range(data.draw(st.integers(1, 2))):
@@ -136,6 +139,11 @@ def _build(plan, reg):
         e.add_child(kids[i])
     # history before the copy: remove a child and add an equivalent one again (insertion order then differs from
     # document order among same-named children)
+    if plan.get('share') is not None and kids:
+        k = kids[plan['share'] % len(kids)]
+        other = cls_for(k.name)          # any second parent will do: an unchecked element of the child's own class
+        call(other(xsd_check=False).add_child, k) if driver.stub_value(k.name) is None else \
+            call(other(driver.stub_value(k.name), xsd_check=False).add_child, k)
     for i in plan.get('readd', []):
         if kids:
             j = i % len(kids)
